@@ -380,7 +380,8 @@ Definition runner_next (ret : option Z) (now : Z) : Z :=
 Inductive conn := CNone | CLive | CClosed.
 Inductive cev := CSccrq (* any copy of the SCCRQ *) | CTeardown (* StopCCN or dead *) | COther.
 (* returns the new state and whether the SCCRQ handler runs (a tunnel is opened, an SCCRP is produced);
-   [linger] = false is the rule without the closed-connection record *)
+   [linger] = true is /repo HEAD (closed-connection record, 1a77bf9); false is the rule before that fix, kept
+   only for the historical refuted theorem *)
 Definition conn_step (linger : bool) (st : conn) (e : cev) : conn * bool :=
   match e, st with
   | CSccrq, CNone => (CLive, true)
